@@ -1,6 +1,7 @@
 package sg
 
 import (
+	"strings"
 	"fmt"
 
 	"pgregory.net/rapid"
@@ -171,6 +172,10 @@ func (g *G) node(sc *scope, depth int, cfgFalse bool, inChoice bool) *Node {
 			}
 		}
 		g.decorate(n, sc, cfgFalse)
+		if g.Chance(1, 8, "childless") {
+			// a container without any child (a placeholder): still a non-presence container unless it says otherwise
+			return n
+		}
 		n.Kids = g.kids(sc, depth-1, cfgFalse || n.Config == "false")
 		return n
 	case 4:
@@ -412,6 +417,16 @@ func (g *G) GenSet() []*Mod {
 			}
 			if len(sc.idents) > 0 && g.Chance(2, 3, "idbase") {
 				id.Base = sc.idents[g.Pick(len(sc.idents), "idb")]
+				// namesakes in different modules preferably derive from one and the same imported base: their order
+				// below that base is then decided by the module names alone
+				if strings.HasPrefix(id.Name, "ishared-") && g.Bool("samebase") {
+					for _, cand := range sc.idents {
+						if strings.Contains(cand, ":") && !strings.HasPrefix(cand, m.Prefix+":") {
+							id.Base = cand
+							break
+						}
+					}
+				}
 			}
 			m.Identities = append(m.Identities, id)
 			sc.idents = append(sc.idents, own(id.Name))
